@@ -62,19 +62,20 @@ Definition side_ok (ord : list (nat * bool)) (expected observed : list side) : b
 Definition is_scan (s : side) (p : list node) : bool :=
   match nth (snode s) p (NCache 0) with NScan _ => true | _ => false end.
 
-Definition ok (c : case) : bool :=
-  let r := ref (cprog c) in
-  let o := cobs c in
+(* judging one observation against an already evaluated reference *)
+Definition ok_with (r : result) (p : list node) (o : obs) : bool :=
   let v := rvalue r in
   errc_eqb (oerr o) EOk
   && forallb (fun e => errc_eqb e EOk) (osherr o)
   && errc_eqb (oscanerr o) EOk
   && shards_ok (vordered v) (vshards v) (oshards o)
   && scanned_ok (vordered v) (vshards v) (oscanned o)
-  && side_ok (rordered r) (filter (fun s => negb (is_scan s (cprog c))) (rsides r)) (owriter o)
-  && side_ok (rordered r) (filter (fun s => is_scan s (cprog c)) (rsides r)) (oscan o).
+  && side_ok (rordered r) (filter (fun s => negb (is_scan s p)) (rsides r)) (owriter o)
+  && side_ok (rordered r) (filter (fun s => is_scan s p) (rsides r)) (oscan o).
 
 (* The model IS the reference semantics, so model/implementation mismatch and
    property violation coincide for C01. *)
+Definition ok (c : case) : bool := ok_with (ref (cprog c)) (cprog c) (cobs c).
+
 Definition violations (cs : list case) : list nat := bad_indices ok cs.
 Definition mismatches (cs : list case) : list nat := violations cs.
